@@ -11,7 +11,7 @@ TRACE_CFG = "Collectors_Trace.cfg"
 F = CL.FOREVER
 AC_MBT = [{"name": "c1", "start": 0, "end": F, "freq": 1, "fkind": "odd_none", "comp": "total", "incl": False},
           {"name": "c2", "start": 1, "end": 2, "freq": 1, "fkind": "value", "comp": "nofunc", "incl": True}]
-FC_MBT = [{"name": "f1", "start": 0, "end": F, "freq": 1, "wc": 1, "k": 1}]
+FC_MBT = [{"name": "f1", "start": 0, "end": F, "freq": 1, "wc": 1, "plan": [0, 1]}]
 
 
 def validate(ctx, programs, source, tamper=True):
